@@ -59,8 +59,9 @@ type Func struct {
 	Adopter *Func
 	inlined []inlineSite
 	// LitAlias is the pinned literal name a spawned helper stands in for.
-	LitAlias  string
-	spawnCall *ast.CallExpr
+	LitAlias     string
+	spawnCall    *ast.CallExpr
+	adoptedSpawn bool // adopted through a go statement (its body is a goroutine of its own)
 
 	cfg *CFG
 }
